@@ -37,15 +37,70 @@ def new_option_defaults(crate):
         adt = crate.adts.get(path)
         if not adt or len(adt["variants"]) != 1:
             continue
+        with_default = _args_with_default(crate, path)
         for fi, f in enumerate(adt["variants"][0]["fields"]):
             if "%s::%s" % (path, f["name"]) in known:
                 continue
+            if with_default is None or f["name"] in with_default:
+                continue     # declared with a default value (or the declaration could not be read): not None / false
             ty = f["ty"]
             if ty.startswith("std::option::Option<"):
                 out.setdefault(path, {})[fi] = ("adt", 0, ())
             elif ty == "bool":
                 out.setdefault(path, {})[fi] = ("b", False)
     return out
+
+
+def _args_with_default(crate, path):
+    """Ids of the arguments of the clap struct `path` that are declared with some default (default_value,
+    default_value_t, default_missing_value, default_value_if ...), read from the derived `augment_args`: the id given
+    to `Arg::new` of the builder chain a `default*` call belongs to. None if the derived code is not found."""
+    from lib.prov import Prov
+    names = [n for n in getattr(crate, "raw_bodies", crate.bodies)
+             if n.startswith("<%s as clap::Args>::augment_args" % path) and "{closure" not in n]
+    if not names:
+        return None
+    ids = set()
+    bodies = getattr(crate, "raw_bodies", crate.bodies)
+    for n in names:
+        b = bodies[n]
+        pr = Prov(b, ())
+
+        def arg_ids(call, depth=0):
+            """Ids of the Arg::new calls the builder value handed to `call` (argument 0) comes from."""
+            out = set()
+            if depth > 40:
+                return None
+            for a in pr.call_arg_origins(call, 0):
+                if a[0] in ("via", "op"):
+                    continue
+                if a[0] != "call":
+                    return None
+                k = b.call_at[a[1]]
+                kn = k.name or ""
+                if kn.endswith("clap::Arg::new") or kn == "clap::Arg::new":
+                    if not (k.args and k.args[0].get("k") == "const"):
+                        return None
+                    t = k.args[0].get("s", "")
+                    out.add(t.replace("const ", "").strip().strip('"'))
+                elif kn.startswith("clap::Arg::") or kn.startswith("clap::builder::Arg::"):
+                    sub = arg_ids(k, depth + 1)
+                    if sub is None:
+                        return None
+                    out |= sub
+                else:
+                    return None
+            return out
+        for c in b.calls:
+            nm = c.name or ""
+            if not (nm.startswith("clap::Arg::") or nm.startswith("clap::builder::Arg::")) \
+                    or "default" not in nm.rsplit("::", 1)[-1]:
+                continue
+            got = arg_ids(c)
+            if not got:
+                return None
+            ids |= got
+    return ids
 
 
 def _strip_ref(ty):
